@@ -402,22 +402,8 @@ Proof.
   exact (limp_or _ _ _ C Hl).
 Qed.
 
-Theorem lint_sub_interp_ops_refuted : exists op lty lint interp p rty form,
-  In (op, lty, lint, interp) obs_ops /\ In (p, rty, form) op_cells_existing /\
-  N.testbit lint p = true /\ N.testbit interp p = false.
-Proof.
-  (* var.l < 5s : INTEGER compared with an RTIME literal *)
-  destruct (find (fun r => match r with (op, lty, lint, interp) =>
-                    String.eqb op "<" && String.eqb lty "INTEGER" && N.testbit (N.ldiff lint interp) 12 end) obs_ops)
-    as [[[[op lty] lint] interp]|] eqn:E.
-  - exists op, lty, lint, interp, 12, "RTIME", "lit".
-    pose proof (find_some _ _ E) as [Hin Hb].
-    apply andb_true_iff in Hb. destruct Hb as [_ Hb].
-    rewrite N.ldiff_spec in Hb. apply andb_true_iff in Hb.
-    destruct Hb as [Hl Hi]. apply negb_true_iff in Hi.
-    split; [exact Hin|]. split; [vm_compute; tauto|]. split; assumption.
-  - vm_compute in E. discriminate.
-Qed.
+(* (no refuting operator cell is left after the repairs 03854fd b725760 2268bae and the ACL-match repair:
+   the known-gap disjunct of lint_sub_interp_ops is currently not used by any cell) *)
 
 (* ================================================================ annotations of any width (3 scopes ... 9 scopes) *)
 Theorem obs_wide_domain :
